@@ -18,7 +18,7 @@ RULE = ("cases = (first message: CONNECT with a handshake payload shape x valida
         "at least one INVOKE follows the first message")
 ASSUMPTIONS = ["for an unknown serializer id or an exception whose __str__ raises the statement promises no reason: only 'nothing ran' and 'closed' are required",
                "pre-connected socket pairs are exempt and not exercised", "'is closed' = EOF/RST observed within a 10 s watchdog"]
-REQUIRED_REACH = ["sibling_refusals_ok", "baseexception_validators_ok", "reused_tickets_refused", "refused_ok", "accepted_ok", "pipelined_invokes_sent", "validator_raised", "wrong_first_type", "unknown_object", "malformed_first"]
+REQUIRED_REACH = ["sibling_refusals_ok", "baseexception_validators_ok", "collected_weak_ids_refused", "reused_tickets_refused", "refused_ok", "accepted_ok", "pipelined_invokes_sent", "validator_raised", "wrong_first_type", "unknown_object", "malformed_first"]
 SHARD_TIMEOUT = {"quick": 240, "thorough": 2800}
 
 
@@ -509,6 +509,52 @@ def baseexception_phase(P, servertype, rec, r):
                     pass
 
 
+def weak_object_phase(fx, log, rec, r, n):
+    """an id that WAS known (a weakly registered object, connected to while it lived) and is unknown now (the object was collected):
+    a connect message naming it is refused like any unknown id, and nothing pipelined behind it runs"""
+    import gc
+    P = fx.P
+
+    @P.server.expose
+    class Ephemeral(object):
+        def hello(self):
+            return "hi"
+    obj = Ephemeral()
+    oid = "ephemeral%d" % n
+    fx.daemon.register(obj, oid, weak=True)
+    pay = {"weak_phase": True, "servertype": fx.servertype}
+    rec.case(("weak", n, fx.servertype), nontrivial=True)
+    with fx.proxy(oid) as p:
+        p._pyroHandshake = {"mode": "accept", "token": "weak-warmup"}
+        if p.hello() != "hi":
+            rec.inconc("warm-up call on the weakly registered object failed")
+            return
+    del obj
+    gc.collect()
+    if not fx.wait_until(lambda: oid not in fx.daemon.objectsById, 5.0):
+        rec.inconc("the weakly registered object was not collected / unregistered within the watchdog")
+        return
+    ser = P.serializers.serializers[r.choice(fixture.SERIALIZERS)]
+    before = len(log.of("exec"))
+    c = wire.RawClient(fx.location, timeout=5.0)
+    try:
+        c.send(wire.encode(wire.CONNECT, 0, 0, ser.serializer_id, ser.dumps({"handshake": {"mode": "accept", "token": "weak%d" % n}, "object": oid}))
+               + invoke_bytes(P, ser, "marker", "mark", ("weak%d" % n,), 1))
+        try:
+            m = c.recv_msg()
+        except (EOFError, OSError):
+            m = None
+        time.sleep(0.05)
+    finally:
+        c.close()
+    ran = [e for e in log.of("exec")[before:] if e[2] == "mark"]
+    if ran or m is None or m.type != wire.CONNECTFAIL:
+        rec.violation("handshake-accepted-wrongly:collected-weak-object", "CONNECT for id %r, whose weakly registered object has been collected (the id is unknown again), was answered with %s and %d pipelined call(s) ran" % (
+            oid, describe_reply(P, m) if m is not None else "nothing", len(ran)), pay)
+        return
+    rec.count("collected_weak_ids_refused")
+
+
 def plan(tier, seed):
     per = 400 if tier == "quick" else 3000
     n = 4 if tier == "quick" else 8
@@ -527,6 +573,8 @@ def run_shard(shard, rec):
             run_case(fx, log, c, rec, r)
             if n % 25 == 24:
                 sibling_probe(fx, log, rec, r, n)
+            if n % 50 == 30:
+                weak_object_phase(fx, log, rec, r, n)
             if not fx.loop_alive():
                 rec.violation("daemon-loop-died", "request loop stopped after case %s: %r" % (describe(c), fx.loop_exc), dict(c, servertype=fx.servertype))
                 break
@@ -545,7 +593,9 @@ def replay(payload, rec):
     st = payload.pop("servertype", "thread")
     fx, log = make_env(P, st)
     try:
-        if payload.get("baseexception"):
+        if payload.get("weak_phase"):
+            weak_object_phase(fx, log, rec, gen.rng(0, "replay"), 1)
+        elif payload.get("baseexception"):
             baseexception_phase(P, st, rec, gen.rng(0, "replay"))
         elif payload.get("sibling_probe"):
             with fx.proxy("marker") as p:
